@@ -372,7 +372,26 @@ impl Spec {
     }
 }
 
-pub const NAMES: &[&str] = &["n", "alpha beta", "", "*a1", "&a1", "null", "~", "a1", "x: y", "- z", "#c", "true", "007", "ünï"];
+pub const NAMES: &[&str] = &[
+    "n",
+    "alpha beta",
+    "",
+    "*a1",
+    "&a1",
+    "null",
+    "~",
+    "a1",
+    "x: y",
+    "- z",
+    "#c",
+    "true",
+    "007",
+    "ünï",
+    // plain (non-wrapper) fields with text that is written as a block scalar next to anchored nodes
+    "l1\nl2\n",
+    "a\n\nb",
+    "lorem ipsum dolor sit amet consectetur adipiscing elit sed do eiusmod tempor incididunt ut labore et dolore magna aliqua",
+];
 pub const LEAF_TEXTS: &[&str] = &["leaf", "", "*a2", "&a2", "null", "two words", "[x]", "{y}", "12", "k: v", "'q'", "\"dq\""];
 
 pub struct GenParams {
@@ -386,6 +405,9 @@ pub struct GenParams {
     /// allow weak references that are serialised before their strong target
     pub allow_early: bool,
     pub max_expansion: u64,
+    /// every node hangs below the previous one (nesting depth = node count): shared nodes
+    /// inside shared nodes inside shared nodes ...
+    pub chain: bool,
 }
 
 #[derive(Clone, Copy)]
@@ -440,11 +462,11 @@ fn random_spec_once(rng: &mut Rng, p: &GenParams, n: usize) -> Spec {
     // tree edges (or orphan -> document root)
     let mut orphans = vec![0usize];
     for j in 1..n {
-        if rng.chance(1, 7) {
+        if !p.chain && rng.chance(1, 7) {
             orphans.push(j);
             continue;
         }
-        let i = if rng.bool() { j - 1 } else { rng.below(j) };
+        let i = if p.chain || rng.bool() { j - 1 } else { rng.below(j) };
         let mut ns = std::mem::take(&mut s.nodes[i]);
         add_strong(rng, &mut ns, j, n, i, p.share_pct);
         s.nodes[i] = ns;
@@ -657,14 +679,12 @@ pub fn weak_options(n: usize) -> usize {
     1 + n * 3 * (n + 1)
 }
 
-pub fn exhaustive_size(n: usize, with_weak: bool, pair_options: usize) -> usize {
-    pair_options.pow(pairs(n) as u32) * 2 * if with_weak { weak_options(n) } else { 1 }
+/// Size of the index space: links per pair x root orders x (weak configurations)^weak_edges.
+pub fn exhaustive_size(n: usize, weak_edges: usize, pair_options: usize, root_orders: usize) -> usize {
+    pair_options.pow(pairs(n) as u32) * root_orders * weak_options(n).pow(weak_edges as u32)
 }
 
-/// Decode index `idx` of the exhaustive space for `n` nodes. `None` = this index
-/// does not describe a buildable graph for the family (two uses of a single-value
-/// slot, or a weak edge the immutable families cannot construct).
-pub fn exhaustive_spec(n: usize, with_weak: bool, pair_options: usize, rec: bool, mut idx: usize) -> Option<Spec> {
+pub fn exhaustive_spec(n: usize, weak_edges: usize, pair_options: usize, root_orders: usize, rec: bool, mut idx: usize) -> Option<Spec> {
     let mut s = Spec { title: "exh".into(), ..Default::default() };
     for i in 0..n {
         s.nodes.push(NodeSpec { name: format!("n{i}"), ..Default::default() });
@@ -700,8 +720,8 @@ pub fn exhaustive_spec(n: usize, with_weak: bool, pair_options: usize, rec: bool
             has_parent[j] = true;
         }
     }
-    let orphans_first = idx % 2 == 1;
-    idx /= 2;
+    let orphans_first = idx % root_orders == 1;
+    idx /= root_orders;
     let orphans: Vec<usize> = (1..n).filter(|j| !has_parent[*j]).collect();
     if orphans_first {
         s.roots.extend(orphans.iter().copied());
@@ -710,8 +730,19 @@ pub fn exhaustive_spec(n: usize, with_weak: bool, pair_options: usize, rec: bool
         s.roots.push(0);
         s.roots.extend(orphans.iter().copied());
     }
-    if with_weak {
+    // weak edges: configuration 0 = none; with two edges only w1 < w2 is kept (or both none), so
+    // that every unordered pair of distinct edges is enumerated once
+    let mut prev = 0usize;
+    for e in 0..weak_edges {
         let w = idx % weak_options(n);
+        idx /= weak_options(n);
+        if e > 0 && w != 0 && w <= prev {
+            return None;
+        }
+        if e > 0 && w == 0 && prev != 0 {
+            return None; // the single-edge graphs are enumerated by the weak_edges = 1 space
+        }
+        prev = w;
         if w > 0 {
             let w = w - 1;
             let tgt = w % (n + 1);
@@ -732,13 +763,133 @@ pub fn exhaustive_spec(n: usize, with_weak: bool, pair_options: usize, rec: bool
                 0 => s.nodes[src].wfirst.push(t),
                 1 => s.nodes[src].weak.push(t),
                 _ => {
-                    if t == WT::Dangling {
+                    if t == WT::Dangling || s.nodes[src].up.is_some() {
                         return None;
                     }
                     s.nodes[src].up = Some(t)
                 }
             }
         }
+    }
+    Some(s)
+}
+
+// ------------------------------------------------------------------ nested sharing
+
+/// Link slots of the nest family, in the order used by the index decoding.
+const NEST_SLOTS: usize = 6;
+
+fn link(ns: &mut NodeSpec, slot: usize, j: usize, key: &str) -> bool {
+    match slot {
+        0 => ns.kids.push(j),
+        1 => ns.named.push((key.to_string(), j)),
+        2 => ns.inner_list.push(j),
+        3 => {
+            if ns.one.is_some() {
+                return false;
+            }
+            ns.one = Some(j)
+        }
+        4 => {
+            if ns.inner_a.is_some() {
+                return false;
+            }
+            ns.inner_a = Some(j)
+        }
+        _ => {
+            if ns.choice != ChoiceSpec::Nil {
+                return false;
+            }
+            ns.choice = ChoiceSpec::Ref(j)
+        }
+    }
+    true
+}
+
+/// Bits per chain position of the nest family: the outermost node has 2 (referenced again by the
+/// late container X / listed again in Doc.roots); the node at depth k >= 1 has one bit per enclosing
+/// chain node (referenced again from it: k bits), one for X (after every enclosing definition is
+/// closed), one for a weak reference from the outermost node (while that is open; k >= 2 only) and
+/// one for Doc.late (weak, after everything).
+fn nest_bits(depth: usize) -> usize {
+    let mut b = 2;
+    for k in 1..depth {
+        b += k + 2 + usize::from(k >= 2);
+    }
+    b
+}
+
+pub fn nest_size(depth: usize, link_slots: usize) -> usize {
+    link_slots.pow(depth as u32 - 1) * (1usize << nest_bits(depth))
+}
+
+/// Shared nodes inside shared nodes: a chain c0 > c1 > ... > c(depth-1) (each link through one of
+/// `link_slots` <= 6 slot kinds: kids, named map, inner.list, one, inner.a, choice::Ref), a leaf below
+/// the innermost node, and a container X that is written after the chain is closed. Every subset of
+/// the re-references described at `nest_bits` is enumerated. Node indices: X = 0, c_k = k + 1.
+pub fn nest_spec(depth: usize, link_slots: usize, mut idx: usize) -> Option<Spec> {
+    debug_assert!(link_slots <= NEST_SLOTS && depth >= 2);
+    let n = depth + 2;
+    let mut s = Spec { title: "nest".into(), ..Default::default() };
+    for i in 0..n {
+        s.nodes.push(NodeSpec { name: format!("n{i}"), ..Default::default() });
+    }
+    let c = |k: usize| k + 1;
+    // chain links
+    for k in 0..depth - 1 {
+        let slot = idx % link_slots;
+        idx /= link_slots;
+        if !link(&mut s.nodes[c(k)], slot, c(k + 1), "link") {
+            return None;
+        }
+    }
+    // leaf below the innermost node
+    s.nodes[c(depth - 1)].kids.push(n - 1);
+    let mut bit = || {
+        let b = idx & 1 == 1;
+        idx >>= 1;
+        b
+    };
+    s.roots.push(c(0));
+    // outermost
+    let a_x = bit();
+    let a_root = bit();
+    let mut extra = 0usize;
+    let mut again = |s: &mut Spec, from: usize, to: usize| {
+        // rotate over the repeatable slots so that sequences, maps and nested structs all occur
+        extra += 1;
+        let ns = &mut s.nodes[from];
+        match (from + to + extra) % 3 {
+            0 => ns.kids.push(to),
+            1 => {
+                let k = format!("z{}", ns.named.len());
+                ns.named.push((k, to));
+            }
+            _ => ns.inner_list.push(to),
+        }
+    };
+    if a_x {
+        again(&mut s, 0, c(0));
+    }
+    for k in 1..depth {
+        for e in (0..k).rev() {
+            if bit() {
+                again(&mut s, c(e), c(k));
+            }
+        }
+        if bit() {
+            again(&mut s, 0, c(k));
+        }
+        if k >= 2 && bit() {
+            s.nodes[c(0)].weak.push(WT::Live(c(k)));
+        }
+        if bit() {
+            s.late.push(WT::Live(c(k)));
+        }
+    }
+    s.roots.push(0);
+    if a_root {
+        s.roots.push(c(0));
     }
     Some(s)
 }
